@@ -260,3 +260,130 @@ Theorem C17_toFlags_denotes_hopts :
   flag_on (toFlags (opts_of_hopts h)) NF_VALUE_MAPPING = false /\ flag_on (toFlags (opts_of_hopts h)) NF_STRING_INT = false.
 Proof. exact toFlags_hopts. Qed.
 Print Assumptions C17_toFlags_denotes_hopts.
+
+(* ================================================================== the code AS CODED refines the decision table *)
+(* model/HttpMapCoded.v transcribes the Go functions (and the two C loops of the native converter) with their variables, loops and
+   mutable state; proofs/HttpMapCodedProofs.v.  Every statement holds for ANY converters and ANY descriptor, hence for the annotation
+   order of today's mapAnnotations (api.body last, finding 1714) and for the listed order alike (C17_coded_refines_table_1714).
+   Check 1704 runs the transcription on every 1701 case against both converters, 1705 its response side against the final http.Response. *)
+From DG Require Import HttpMapCoded HttpMapCodedProofs.
+From Coq Require Import Permutation.
+
+Theorem C17_coded_refines_table :
+  forall (o : hopts) (rq : request) (conv_text : tdesc -> list Z -> option tval) (conv_json : tdesc -> json -> option tval)
+         (rec_member rec_doc : list fdesc -> json -> fres) (n : nat),
+  (* 1. the mapping loop (ok / val / httpEnc per field, break on the first nil error, abort on ErrConvert) chooses the table's first_source *)
+  (forall f hms k, source_loop (hm_Request rq conv_text n) f hms false (SText_ []) ENC_JSON =
+                   loop_of_source rq conv_text n f (first_source_from k hms (is_struct (f_ty f)) rq)) /\
+  (* 2. api.no_body_struct: the nested loop (ok / val fresh per nested field) builds the table's nbs_fields *)
+  (forall gs, nbs_request rq conv_text (S n) gs =
+              match nbs_fields rq conv_text gs with Some l => ROk_ (SThrift (VStruct l)) | None => RErr_ E_Convert end) /\
+  (* 3. one iteration of handleHttpMappings = the table's decision (value written / skipped / error, requires bit), the loop = their fold *)
+  (forall nobody f bm buf, hhm_field o rq conv_text conv_json rec_doc (S n) nobody f bm buf =
+                           apply_step (f_id f) (hhm_step o rq conv_text conv_json rec_doc nobody f) bm buf) /\
+  (forall nobody fs bm buf, handleHttpMappings o rq conv_text conv_json rec_doc (S n) nobody fs bm buf =
+                            fold_steps o rq conv_text conv_json rec_doc nobody (HttpMappingFields fs) bm buf) /\
+  (* 4. ... and what it writes is the table's field_result; the field stays owed exactly under "fall back to the body" *)
+  (forall root ms f, f_anns f <> [] -> map_field o false f rq <> DFallbackToBody ->
+     match fst (hhm_step o rq conv_text conv_json rec_doc false f) with Some r => r | None => FAbsent end =
+     field_result o Spec rq conv_text conv_json rec_doc root false ms f) /\
+  (* 5. a body member: skipped iff http-mapped and not owed, else converted and the bit cleared *)
+  (forall fs k j rest bm buf ft, FieldByKey fs k = Some ft ->
+     members_loop conv_json rec_member fs ((k, j) :: rest) bm buf =
+     if nonempty (f_anns ft) && negb (bm (f_id ft)) then members_loop conv_json rec_member fs rest bm buf
+     else match to_wres (f_id ft) (conv_value conv_json rec_member (f_ty ft) j) with
+          | WOk w => members_loop conv_json rec_member fs rest (bm_set bm (f_id ft) false) (buf ++ w)
+          | WErr c => HFail c
+          end) /\
+  (* 6. owed fields at the closing brace: portable callback, native field cache + hand-back, empty-body callback = the table's rules *)
+  (forall root f, valid_req f ->
+     HandleRequires_field (o_wr o || o_tb o) (o_wd o || (o_tb o && root)) (o_wo o || (o_tb o && root))
+       (fun f => let '(val, enc) := if o_tb o && (root || (f_req f =? R_REQUIRED)) then tryGetValueFromHttp rq (f_name f) else ([], ENC_JSON) in
+                 writeStringValue o conv_text conv_json rec_doc f (SText_ val) enc) f =
+     to_wres (f_id f) (unset_rule o Spec rq conv_text conv_json rec_doc root f)) /\
+  (forall docroot top f, valid_req f ->
+     native_unset o rq conv_text conv_json rec_doc docroot top f =
+     to_wres (f_id f) (unset_rule o Spec rq conv_text conv_json rec_doc (docroot && top) f)) /\
+  (forall f, valid_req f -> f_req f <> R_OPTIONAL ->
+     HandleRequires_field (o_rhf o) (o_rhf o) (o_rhf o)
+       (fun f => let '(val, enc) := tryGetValueFromHttp rq (f_name f) in writeStringValue o conv_text conv_json rec_doc f (SText_ val) enc) f =
+     to_wres (f_id f) (nobody_unset_rule o rq conv_text conv_json rec_doc f)) /\
+  (* 7. every hand-back serves exactly the cached ids and leaves fsm.FieldCache empty *)
+  (forall top fs cache buf, snd (handleUnmatchedFields o rq conv_text conv_json rec_doc top fs cache buf) = []).
+Proof.
+  intros o rq ct cj rm rd n.
+  split; [intros; apply source_loop_spec|].
+  split; [intros; apply nbs_request_spec|].
+  split; [intros; apply hhm_field_spec|].
+  split; [intros; apply handleHttpMappings_spec|].
+  split; [intros; apply hhm_step_result; assumption|].
+  split; [intros; apply members_step; assumption|].
+  split; [intros; apply portable_unset_spec; assumption|].
+  split; [intros; apply native_unset_spec; assumption|].
+  split; [intros; apply nobody_unset_spec; assumption|].
+  intros; apply handleUnmatchedFields_resets_cache.
+Qed.
+Print Assumptions C17_coded_refines_table.
+
+(* response side: first target wins, body omission iff the table says so, cookie setter semantics *)
+Theorem C17_coded_response_refines_table :
+  forall o f r text,
+  t2j_field o f r text =
+    match resp_field o f text with
+    | RODelivered k key v => TJ false (deliver k key v r)
+    | ROSwallowed | RODropped => TJ false r
+    | ROBody => TJ true r
+    | ROError => TJErr
+    end /\
+  (forall in_body r', t2j_field o f r text = TJ in_body r' ->
+     in_body = in_json_body (resp_field o f text) /\ exists l, rs_cookies r' = rs_cookies r ++ l) /\
+  (forall k key v, rs_cookies (deliver k key v r) = if k =? K_COOKIE then rs_cookies r ++ [(key, v)] else rs_cookies r).
+Proof.
+  intros o f r text. split; [apply t2j_field_spec|]. split.
+  - intros ib r' H. split; [|eapply t2j_field_keeps_cookies; exact H].
+    rewrite t2j_field_spec in H. destruct (resp_field o f text); inversion H; reflexivity.
+  - intros. apply deliver_cookies.
+Qed.
+Print Assumptions C17_coded_response_refines_table.
+
+(* both annotation orders: the transcription on the descriptor mapAnnotations produces = the table on that descriptor *)
+Definition with_order (repaired : bool) (f : fdesc) : fdesc := FD (f_id f) (f_name f) (f_req f) (map_annotations repaired (f_anns f)) (f_ty f).
+Theorem C17_coded_refines_table_1714 :
+  forall repaired o rq conv_text conv_json rec_doc n nobody f bm buf,
+  hhm_field o rq conv_text conv_json rec_doc (S n) nobody (with_order repaired f) bm buf =
+  apply_step (f_id f) (hhm_step o rq conv_text conv_json rec_doc nobody (with_order repaired f)) bm buf /\
+  map_annotations true (f_anns f) = f_anns f /\
+  map_annotations false (f_anns f) = body_last (f_anns f).
+Proof.
+  intros. split; [|split; reflexivity].
+  change (f_id f) with (f_id (with_order repaired f)). apply hhm_field_spec.
+Qed.
+Print Assumptions C17_coded_refines_table_1714.
+
+(* PARTIAL: the composition of the three phases of one struct (mappings, members, owed fields) into the table's struct_result is
+   not proved; this is its full statement (fields and member keys distinct; same set of (id, value) pairs, or both an error).
+   It is tied by check 1704 on every case of every run instead. *)
+Definition same_fields (a b : hres) : Prop :=
+  match a, b with HOk l1, HOk l2 => Permutation l1 l2 | HErr _, HErr _ => True | _, _ => False end.
+Definition C17_coded_struct_refines_table_statement : Prop :=
+  forall o rq conv_text conv_json rec n root docroot top fs ms,
+  NoDup (map f_id fs) -> NoDup (map f_name fs) -> NoDup (map fst ms) -> Forall valid_req fs ->
+  same_fields (wres_to_hres (portable_struct o rq conv_text conv_json rec rec (S n) root fs ms))
+              (struct_result o Spec rq conv_text conv_json rec root false fs ms) /\
+  same_fields (wres_to_hres (fst (native_struct o rq conv_text conv_json rec rec (S n) docroot top fs ms [])))
+              (struct_result o Spec rq conv_text conv_json rec (docroot && top) false fs ms).
+
+(* the transcription computes: a request whose first listed source (query) is empty and whose second (header) has a value;
+   api.body listed first but consulted last by today's mapAnnotations; a nested no_body_struct whose second field has no value *)
+Example C17_example_coded :
+  let o := ex_o false true false false false in
+  coded_j2t o (mkReq [] [] [([104], [55])] [] [] [] [] []) (text_conv o) (json_conv_c02 o) true 8 [ex_f] (Some (JObj [])) = HOk [(1, VI32 7)] /\
+  coded_j2t o (mkReq [] [] [([104], [55])] [] [] [] [] []) (text_conv o) (json_conv_c02 o) false 8 [ex_f] (Some (JObj [])) = HOk [(1, VI32 7)] /\
+  (let f := FD 1 [97] R_DEFAULT [Ann K_BODY [97]; Ann K_QUERY [97]] (TBase T_I32 false) in
+   let rq := mkReq [([97], [49])] [] [] [] [] [([97], [50])] [] [] in
+   coded_j2t o rq (text_conv o) (json_conv_c02 o) true 8 [f] (Some (JObj [])) = HOk [(1, VI32 2)] /\
+   coded_j2t o rq (text_conv o) (json_conv_c02 o) true 8 (reorder_fields 8 [f]) (Some (JObj [])) = HOk [(1, VI32 1)]) /\
+  (let inner := [FD 1 [110; 49] R_DEFAULT [Ann K_QUERY [113]] (TBase T_I32 false); FD 2 [110; 50] R_DEFAULT [Ann K_HEADER [122]] (TBase T_I32 false)] in
+   let f := FD 5 [110] R_DEFAULT [Ann K_NO_BODY_STRUCT [110]] (TStruct inner) in
+   coded_j2t o ex_rq (text_conv o) (json_conv_c02 o) true 8 [f] None = HOk [(5, VStruct [(1, VI32 42); (2, VI32 0)])]).
+Proof. vm_compute. repeat split; reflexivity. Qed.
